@@ -42,6 +42,7 @@ REQUIRED_BRANCHES = ['chunk_1', 'chunk_full', 'chunk_divides', 'chunk_not_divide
                      'rerun_overwrite', 'cube_wavelength_other_unit',
                      'rerun_after_longer_run', 'gz_leftovers_in_output', 'parameters_stale_gz_beside', 'parameters_only_gz',
                      'named_filter_stale_gz_beside', 'named_filter_only_gz',
+                     'cube_between_geometric_and_arithmetic_mean', 'cube_just_above_midpoint', 'cube_just_below_midpoint',
                      'keep_disjoint_ok', 'keep_overlap_refused', 'run_after_refusal', 'positional_call',
                      'fitter_positional', 'fitter_use_memmap', 'fitter_remove_resolved']
 ASSUMPTIONS = [
@@ -276,8 +277,22 @@ def gen_cube_case(rng, directed=False):
     def entry_n(i):
         return dict(name=broad[i]['name'], ap=rng.randrange(max(nap, 1)))
 
+    def near_threshold_entries():
+        """requested wavelengths just beside the arithmetic mid-point of two neighbours (1e-6 relative, both sides) and
+        between their geometric and arithmetic means (nearest in linear space = the lower one, in log space the upper)"""
+        i = rng.randrange(nw - 1)
+        lo_, hi_ = w[i], w[i + 1]
+        arith, geo = (lo_ + hi_) / 2., (lo_ * hi_) ** 0.5
+        out = [entry_w(arith * (1 + 1e-6)), entry_w(arith * (1 - 1e-6)), entry_w((geo + arith) / 2.),
+               entry_w(geo + 0.9 * (arith - geo)), entry_w(geo * (1 - 1e-3))]
+        out[0]['unit'] = 'nm'
+        out[2]['unit'] = 'Angstrom'
+        return out
+
     lists = []
     base = [entry_w() for _ in range(rng.randint(2, 4))]
+    if directed or rng.random() < 0.5:
+        base += near_threshold_entries()
     base += [entry_w(w[rng.randrange(nw)]), entry_w(w[0] * 0.5), entry_w(w[-1] * 3.)]
     rng.shuffle(base)
     lists.append(base)
@@ -865,6 +880,14 @@ def check_cube(case, d, branches, with_model=True):
                 branches.add('cube_outside')
             else:
                 branches.add('cube_between')
+                ws_ = np.sort(wav)
+                hi_i = int(np.searchsorted(ws_, x))
+                lo_, hi_ = ws_[hi_i - 1], ws_[hi_i]
+                arith, geo = (lo_ + hi_) / 2., (lo_ * hi_) ** 0.5
+                if geo < x < arith * (1 - 1e-9):
+                    branches.add('cube_between_geometric_and_arithmetic_mean')
+                if abs(x - arith) <= 2e-6 * arith:
+                    branches.add('cube_just_above_midpoint' if x > arith else 'cube_just_below_midpoint')
             want = val[:, a, k]
             # aperture-dependent: the fitter interpolates at (aperture/1000 arcsec) x 1000 pc, i.e. within an ulp of the
             # tabulated aperture; rounding budget = slope x aperture x 1e-14 (exact comparison otherwise)
